@@ -217,6 +217,11 @@ func runC13(r *Run) {
 	r.checkPartition(P)
 	r.checkAnchoredRequest(P)
 	r.checkCompressWhole(P)
+	// … and the reader's side of the same round trip: the whole stream, only without error, from the algorithm named;
+	// every file reference is fetched (primary or alternate source alike); the count announced is the count read back
+	r.checkDecompress(P)
+	r.checkFetchEveryReference(P)
+	r.checkCountsAnchor(P)
 }
 
 // checkCompressWhole: what the writer stores is the complete gzip stream of exactly the file content — written, then
